@@ -116,7 +116,7 @@ def motif_promo_cc(rng):
 
 
 def gen_positions(ctx, quick):
-    ngames, plies, nsyn, nmulti, npromo = (260, 150, 5000, 6000, 3000) if quick else (6000, 220, 150000, 250000, 100000)
+    ngames, plies, nsyn, nmulti, npromo = (260, 150, 5000, 6000, 3000) if quick else (2500, 220, 80000, 120000, 50000)
     fens = chessgen.games(ctx, ngames, plies) + chessgen.synthetic(ctx.rng, nsyn)
     fens += [motif_multi(ctx.rng) for _ in range(nmulti)] + [motif_promo_cc(ctx.rng) for _ in range(npromo)]
     return [f for f in dict.fromkeys(fens) if matid_ok(f)]      # see FOREIGN_DEFECTS
@@ -368,10 +368,21 @@ def gen_uci_bytes(rng, n):
 
 # ---- PGN ----------------------------------------------------------------------------------------
 
-def decorate_pgn(rng, fen, w):
-    """PGN text around the real writer's move text `w`: tags, move numbers, comments, NAGs, annotation suffixes, escape lines"""
+def decorate_pgn(rng, fen, w, plain=False):
+    """PGN text around the real writer's move text `w`: tags, move numbers, comments, NAGs, annotation suffixes, escape lines.
+    `plain`: only what keeps the token stream in the SYMBOL / ( / ) sublanguage of the token-level model (plus skipped tokens)."""
     toks = re.findall(r"\(|\)|[^\s()]+", w)
     out = []
+    if plain:
+        n = 1
+        for t in toks:
+            if t not in "()" and rng.random() < 0.4: out.append(f"{n}." + rng.choice(["", " ", ".. "])); n += 1
+            out.append(t.rstrip("+"))            # the reader strips a final '+' itself; '#' is left to stringToMove
+            if t not in "()":
+                if rng.random() < 0.15: out.append(" $" + str(rng.choice([1, 7, 139])))
+                if rng.random() < 0.15: out.append(" {" + rng.choice(["c", "a (b", ")"]) + "}")
+            out.append(rng.choice([" ", " ", "\n", "  "]))
+        return "".join(out).encode("latin-1", "replace")
     if fen != chessgen.START or rng.random() < 0.3:
         out.append(f'[FEN "{fen}"]\n')
     if rng.random() < 0.6:
@@ -431,6 +442,9 @@ def gen_pgn(ctx, fens, ntrees, nmut):
         canon = None
         for _ in range(2):
             items.append(("decorated", decorate_pgn(rng, fen, w), w, fen))
+        if fen == chessgen.START:
+            items.append(("decorated", w.encode("latin-1"), w, fen))
+            items.append(("decorated", decorate_pgn(rng, fen, w, plain=True), w, fen))
     alpha = b"abcdefgh12345678KQRBNOx-+#=!?.()[]{};\"$%* \n\r\t10/\\"
     base = [it[1] for it in items] or [b"1. e4 e5"]
     for _ in range(nmut):
@@ -460,7 +474,7 @@ def probe_deep_nesting(ctx):
 
 def block_malformed(ctx, fens, san_by_fen, quick, nproc):
     rng = ctx.rng
-    nf, ns, nu, ntree, npg = (22000, 12000, 6000, 1000, 8000) if quick else (2000000, 1200000, 500000, 40000, 1200000)
+    nf, ns, nu, ntree, npg = (22000, 12000, 6000, 1000, 8000) if quick else (110000, 60000, 30000, 4000, 50000)   # per round
     lines, meta = [], []
     for s in gen_fen_bytes(rng, fens, nf):
         lines.append("text fenx " + hx(s)); meta.append(("fen", s))
@@ -472,6 +486,8 @@ def block_malformed(ctx, fens, san_by_fen, quick, nproc):
     items, _ = gen_pgn(ctx, fens, ntree, npg)
     for kind, s, w, fen in items:
         lines.append("text pgnx " + hx(s)); meta.append(("pgn-" + kind, s, w, fen))
+    order = list(range(len(lines))); rng.shuffle(order)          # PGN inputs are the expensive ones: spread them over the chunks
+    lines = [lines[i] for i in order]; meta = [meta[i] for i in order]
     r = pdiff(ctx, "malformed-stream", lines, "asan", nproc)
     if r is None: return
     out1, out2 = r
@@ -501,6 +517,8 @@ def block_malformed(ctx, fens, san_by_fen, quick, nproc):
             ctx.violation(f"malformed-stream: result class differs on {m[0]} input {m[1][:80]!r}: impl `{a[:160]}` model `{b[:160]}`",
                           {"kind": "correspondence", "tie": "malformed-stream", "theorem_scope": "Props/C17.lean parsers_total / readFEN_counters_in_range speak about a model that no longer matches the parsers",
                            "input": [l], "impl": a[:3000], "model": b[:3000]}, no_input=True)
+    old = ctx.cov.get("malformed_classes", {})
+    for k, v in old.items(): cls[k] = cls.get(k, 0) + v
     ctx.cov["malformed_classes"] = dict(sorted(cls.items(), key=lambda kv: -kv[1])[:40])
     for i in (0, len(lines) // 2, len(lines) - 1):
         ctx.sample({"op": lines[i][:160], "impl": out1[i][:160]})
@@ -623,12 +641,21 @@ def run(ctx):
                         "isspace/isdigit in the \"C\" locale", "memory safety of libstdc++ string and stream operations themselves is trusted"]
     fens = gen_positions(ctx, quick)
     stats = {k: 0 for k in ("positions", "rejected", "moves", "check", "mate", "castle", "disamb_file", "disamb_rank", "disamb_both", "promo", "promo_capture", "promo_capture_check", "ep")}
-    san_by_fen = block_moves(ctx, fens, "plain", nproc, stats)
-    sub = ctx.rng.sample(fens, max(1, len(fens) // (8 if quick else 4)))
-    block_moves(ctx, sub, "asan", nproc, dict(stats))
+    san_by_fen = {}
+    B = 40000                                    # batches bound the memory of the thorough tier
+    for i in range(0, len(fens), B):
+        san_by_fen.update(block_moves(ctx, fens[i:i + B], "plain", nproc, stats))
+        if ctx.violations: break
+    sub = ctx.rng.sample(fens, max(1, len(fens) // (8 if quick else 6)))
+    for i in range(0, len(sub), B):
+        block_moves(ctx, sub[i:i + B], "asan", nproc, dict(stats))
     ctx.cov["move_text_stats"] = stats
     accepted = [f for f in san_by_fen]
-    block_malformed(ctx, accepted or [chessgen.START], san_by_fen, quick, nproc)
+    if not quick and len(san_by_fen) > 60000:      # keep a sample of the move texts as mutation bases
+        san_by_fen = {f: san_by_fen[f] for f in ctx.rng.sample(accepted, 60000)}
+    for rnd in range(1 if quick else 8):
+        block_malformed(ctx, accepted or [chessgen.START], san_by_fen, quick, nproc)
+        if ctx.violations: break
     block_uci(ctx, accepted or [chessgen.START], quick)
     probe_deep_nesting(ctx)
     ctx.cov["rule"] = ("positions = all positions of random legal games + chessgen's synthetic motifs + placements with 2..8 like pieces attacking one square (shared files/ranks forced) "
